@@ -690,6 +690,11 @@ impl Game {
         if self.is_endgame() {
             self.piece_scores[PieceType::King as usize].set(&scores::KING_SCORES_END);
             self.phase = GamePhase::Endgame;
+            // The kings were scored with the middlegame table: re-score them, otherwise the
+            // next king move (or its take-back) changes the score by the table difference
+            for position in self.king_positions {
+                self.set_position(position, self.get_position(position));
+            }
         }
     }
 
